@@ -222,8 +222,12 @@ def only_callbacks(prop, fields, a, b):
     checks on the implementation directly) is not a disagreement about this property."""
     if not fields:
         return False
-    if prop == "C20" and fields <= {"h", "hs"}:
+    if fields <= {"h", "hs"}:
+        # the hash count is C20's subject alone, and C20 is decided by its monitor
         return True
+    if prop in ("C16", "C17", "C19", "C07") and fields <= {"ev", "h", "hs"}:
+        keep = ("dK", "dV")
+        return sorted(e for e in _evs(a.get("ev")) if e.split(":")[0] in keep) == sorted(e for e in _evs(b.get("ev")) if e.split(":")[0] in keep)
     if fields <= {"ev"} and prop in EV_KINDS:
         keep = EV_KINDS[prop]
         pa = [e for e in _evs(a.get("ev")) if e.split(":")[0] in keep]
@@ -589,6 +593,12 @@ def compare(ctx, res):
             fields = [f for f in fields if f != "bk"]
             if not fields:
                 continue
+        if "!" in ops[i].split(" | ")[0] and a.get("st") != b.get("st") and "ar" not in a and "ar" not in b:
+            # an injected panic (`!kind:n` = panic in the n-th callback of that kind) that one side reached and the
+            # other did not: how many callbacks of a kind an operation makes is an implementation detail (an extra
+            # `Eq` or size estimate), so the two runs are not comparable on this line. The state the real code was
+            # left in is judged by the monitors (and the driver continues from it).
+            continue
         if b.get("ar") == "ovf" and a.get("ar") != "ovf":
             # the model says an arithmetic step leaves usize — the operation is outside assumption A-sizes (sizes
             # whose sum passes usize::MAX) — and the implementation did not panic: it is more tolerant than it
